@@ -99,6 +99,13 @@ def compare(impl, model):
     return out
 
 
+def run_safe(schema, c):
+    try:
+        return G.run_impl(schema, c["doc"], c["data"], c["variables"], c["operation_name"])
+    except Exception as e:  # noqa: BLE001
+        return {"kind": "raised", "messages": [repr(e)]}
+
+
 def strip(r):
     return {k: v for k, v in r.items() if k not in ("messages", "raw", "fields", "causes")}
 
@@ -152,7 +159,31 @@ def run_schema(ck, m, rng, n_docs, max_depth, p_bad):
             later.append(G.run_impl(schema, c["doc"], c["data"], c["variables"], c["operation_name"]))
         except Exception as e:  # noqa: BLE001
             later.append({"kind": "raised", "messages": [repr(e)]})
+    # the same schema assembled programmatically, defaults in the legacy / value / literal styles:
+    # every request must be answered as by the SDL-built schema
+    variants = []
+    for label, styles in (("legacy default_value", ("legacy",)), ("mixed default styles", ("legacy", "value", "literal"))):
+        try:
+            from graphql.type import validate_schema as _vs
+            ps = gs.build_programmatic(rng, styles)
+            if _vs(ps):
+                raise ValueError("programmatic schema invalid")
+            variants.append((label, ps, [run_safe(ps, c) for c in cases]))
+        except Exception as e:  # noqa: BLE001
+            ck.count("programmatic_schema_not_built")
+            ck.extra.setdefault("generator_errors", []).append(f"programmatic: {e!r}"[:300])
     outs = m.run_batch([c["wire"] for c in cases])
+    for label, _ps, rs in variants:
+        for c, r1, rp in zip(cases, first, rs):
+            ck.count("programmatic_schema_runs")
+            if strip(rp) != strip(r1):
+                kid = "exec-programmatic:" + common.hashlib.blake2b(
+                    repr((sdl, c["text"], repr(c["variables"]))).encode("utf-8", "surrogatepass"), digest_size=8).hexdigest()
+                ck.violation(kid, f"the programmatically built schema ({label}) answers differently from the "
+                                  "SDL-built schema (and the specification model): "
+                                  + "; ".join(rp.get("messages", [])[:2]),
+                             dict(replay_dict(sdl, c, r1, {}, "programmatic schema"), programmatic=repr(strip(rp))[:3000],
+                                  default_styles=label))
     # wire echo: the model's decoder/encoder reproduce the request tree
     for c, echo in zip(cases[:5], m.run_batch([[0] + c["wire"][1:] for c in cases[:5]])):
         ck.count("wire_echo_checked")
